@@ -45,6 +45,28 @@ mod verif_replay {
                 }
             }
         }
+        // list construction through a reserved section, at every fill level around the exact fit
+        for size in 0..=12usize {
+            for slack in 0..=3usize {
+                let mut heap = match Heap::with_cell_capacity(64) { Ok(h) => h, Err(_) => continue };
+                let cap0 = heap.inner.byte_cap;
+                let want_free = 8 * (2 * size + slack);
+                if want_free > cap0 { continue; }
+                while heap.inner.byte_cap - heap.inner.byte_len > want_free {
+                    let _ = heap.push_cell(HeapCellValue::build_with(HeapCellValueTag::Fixnum, 0));
+                }
+                if heap.inner.byte_cap != cap0 { continue; }
+                let len0 = heap.inner.byte_len;
+                let r = sized_iter_to_heap_list(&mut heap, size, (0..size).map(|_| HeapCellValue::build_with(HeapCellValueTag::Fixnum, 0)));
+                if heap.inner.byte_len > heap.inner.byte_cap {
+                    println!("REPLAY-FAIL sized_iter_to_heap_list: {} elements with {} bytes free of {}: byte_len {} > byte_cap {} after the call (result ok={})",
+                             size, cap0 - len0, cap0, heap.inner.byte_len, heap.inner.byte_cap, r.is_ok());
+                    heap.inner.byte_len = heap.inner.byte_cap;
+                } else if r.is_ok() && size > 0 && heap.inner.byte_len != len0 + 8 * (2 * size + 1) {
+                    println!("REPLAY-FAIL sized_iter_to_heap_list: {} elements wrote {} bytes, expected {}", size, heap.inner.byte_len - len0, 8 * (2 * size + 1));
+                }
+            }
+        }
         for cells in 0..=6usize {
             let mut heap = match Heap::with_cell_capacity(cells.max(1)) { Ok(h) => h, Err(_) => continue };
             for _ in 0..(3 * cells + 3) {
